@@ -5,6 +5,7 @@ import (
 	"berty.tech/go-ipfs-log/entry"
 	"berty.tech/go-orbit-db/stores/operation"
 	cid "github.com/ipfs/go-cid"
+	"sort"
 )
 
 func cidsToStringers(cs []cid.Cid) []interface{ String() string } {
@@ -26,3 +27,5 @@ func toLogEntries(es []*entry.Entry) []ipfslog.Entry {
 }
 
 func parseOp(e ipfslog.Entry) (operation.Operation, error) { return operation.ParseOperation(e) }
+
+func sortStrings(s []string) { sort.Strings(s) }
